@@ -109,6 +109,8 @@ def run(ctx):
                            rec["suid"], rec["sgid"], rec["duid"], rec["dgid"], rec["noperms"], rec["notimes"], rec["ownership"]),
                           {"kind": "c10", "record": rec, "argv_extra": sc["extra"], "driver": drv, "umask": sc["umask"]},
                           sig={"scenario": sc["id"], "clauses": ",".join(sorted(v["viol"]))})
+    from .. import combo
+    combo.run(ctx, binary, {"C10"}, 40 if quick else 400, "C10")
     ctx.sample(recs[0]); ctx.sample(recs[len(recs) // 2])
     ctx.notes["files_judged"] = len(recs); ctx.notes["runs"] = len(jobs)
     ctx.rule = ("%d modes out of 0..07777 (%s) x mtimes {1 ns, sub-second past, far future, ...} x xattr sets {none, one, three incl. empty and 300-byte "
